@@ -54,6 +54,15 @@ def _conjuncts(c):
     return [c]
 
 
+def _disjuncts(c):
+    c = _strip_casts(c)
+    while c is not None and c.k == 'ParenExpr':
+        c = _strip_casts(c.c[0])
+    if c is not None and c.k == 'BinaryOperator' and c.op == '||':
+        return _disjuncts(c.child('lhs')) + _disjuncts(c.child('rhs'))
+    return [c]
+
+
 def established_tags(node, base, fn):
     """Set of tags the union may hold at `node` according to enclosing tests / case arms / early-exit
     guards / a preceding tag store in the same block (constraints are intersected; a tag store is
@@ -85,6 +94,13 @@ def established_tags(node, base, fn):
                     tt = _tag_test(cj, base, fn)
                     if tt and tt[1]:
                         cons.append({tt[0]})
+        elif a.k == 'BinaryOperator' and a.op == '||':
+            if a.child('rhs') is cur:
+                # the right operand of `||` is evaluated only when every disjunct on the left is false
+                for dj in _disjuncts(a.child('lhs')):
+                    tt = _tag_test(dj, base, fn)
+                    if tt:
+                        cons.append({tt[0]} if not tt[1] else ALL - {tt[0]})
         elif a.k == 'ConditionalOperator':
             tt = _tag_test(a.child('cond'), base, fn)
             if tt:
@@ -107,9 +123,11 @@ def established_tags(node, base, fn):
                     if s is None:
                         continue
                     if s.k == 'IfStmt' and s.child('else') is None and tables._always_leaves(s.child('then')) and len(_conjuncts(s.child('cond'))) == 1:
-                        tt = _tag_test(s.child('cond'), base, fn)
-                        if tt:
-                            cons.append({tt[0]} if not tt[1] else ALL - {tt[0]})
+                        # `if (A || B) leave;`: afterwards every disjunct is false
+                        for dj in _disjuncts(s.child('cond')):
+                            tt = _tag_test(dj, base, fn)
+                            if tt:
+                                cons.append({tt[0]} if not tt[1] else ALL - {tt[0]})
                     if is_assign(s) and s.op == '=' and s.child('lhs').k == 'MemberExpr' and s.child('lhs').n == 'type' and _base_key(s.child('lhs')) == base:
                         r = _strip_casts(s.child('rhs'))
                         if r.k == 'DeclRefExpr' and r.dk == 'enum':
